@@ -42,6 +42,14 @@ class Schedule:
             self.in_flight.remove(number)
         self.completed.append(number)
 
+    def record(self, label):
+        """a call that does not yield (plain function): it still counts, and overlaps with everything in flight"""
+        number = len(self.labels)
+        self.labels.append(label)
+        for other in self.in_flight:
+            self.overlaps.append((self.labels[other], label))
+        self.completed.append(number)
+
     def reordered_pairs(self):
         """pairs of labels (a, b): a was called before b but b completed before a"""
         position = {number: index for index, number in enumerate(self.completed)}
@@ -53,11 +61,13 @@ class Schedule:
         return pairs
 
 
-def make_providers(schedule, rc=None, fc=None, hints=None, packages=None, fc_function=None, decoys=True):
+def make_providers(schedule, rc=None, fc=None, hints=None, packages=None, fc_function=None, decoys=True, sync_fc=()):
     """
     rc: key -> letter; fc: key -> bool (message embeds the key); hints: key -> text; packages: key -> text | None.
     fc_function(key, text) -> (bool, message) overrides fc (used by C15: the answer depends on the entered text).
     Every second rc key gets a plain (non-async) evaluation method - both kinds are supported by ahbicht.
+    sync_fc: fc keys whose evaluation method is a plain function that - like a helper shared by many user methods would -
+    reads the text from the documented context variable text_to_be_evaluated_by_format_constraint, not from its argument.
     """
     from ahbicht.content_evaluation.evaluationdatatypes import EvaluationContext
     from ahbicht.content_evaluation.fc_evaluators import FcEvaluator
@@ -119,7 +129,15 @@ def make_providers(schedule, rc=None, fc=None, hints=None, packages=None, fc_fun
                 ok, message = fc[key], (None if fc[key] else f"E{key}")
             return EvaluatedFormatConstraint(ok, message)
 
-        setattr(Fc, f"evaluate_{key}", check)
+        def check_sync(self, entered_input, key=key):  # pylint:disable=unused-argument
+            from ahbicht.content_evaluation.fc_evaluators import text_to_be_evaluated_by_format_constraint
+
+            seen = text_to_be_evaluated_by_format_constraint.get()
+            schedule.record(("fc", key, seen))
+            ok, message = fc_function(key, seen)
+            return shared_unfulfilled[key] if (not ok and message is None) else EvaluatedFormatConstraint(ok, message)
+
+        setattr(Fc, f"evaluate_{key}", check_sync if (key in sync_fc and fc_function is not None) else check)
 
     class Hints(HintsProvider):
         edifact_format = sut.FMT
